@@ -2,12 +2,6 @@ import WindVerif.Proofs.FMapAux8
 /-! Termination: the measure `mu` decreases with every step. -/
 namespace WindVerif.FMap
 
-@[simp] theorem receive_workQ (s : St) (i : Nat) : (receive s i).workQ = s.workQ := by unfold receive; split <;> rfl
-@[simp] theorem receive_resQ (s : St) (i : Nat) : (receive s i).resQ = s.resQ := by unfold receive; split <;> rfl
-@[simp] theorem receive_workers (s : St) (i : Nat) : (receive s i).workers = s.workers := by unfold receive; split <;> rfl
-@[simp] theorem receive_total (s : St) (i : Nat) : (receive s i).total = s.total := by unfold receive; split <;> rfl
-@[simp] theorem receive_next (s : St) (i : Nat) : (receive s i).next = s.next := by unfold receive; split <;> rfl
-
 /-- the cost of everything that follows the end of a call -/
 def tailD (c : Cfg) : Nat := if c.mulP then 0 else 2 * c.nWorkers + 2
 
@@ -190,10 +184,24 @@ theorem mu_stepP {cfg : Cfg} (hw : 1 ≤ cfg.nWorkers) {s s' : St} (h : Main cfg
     cases hq : s.resQ with
     | cons i r =>
       rw [stepP_nowait_cons hp hq] at hs
-      simp only [Option.some.injEq] at hs; subst hs
-      rw [mu_receive]
-      simp only [mu, muA, hq, List.length_cons]
-      omega
+      split at hs
+      · -- `exact`: the rest of the call (final drain, start of the next call) is skipped
+        rename_i hex
+        have hm : s.cfg.mulP = false := by
+          cases hc : s.cfg.mulP
+          · rfl
+          · exact absurd hc hex.2.1
+        simp only [Option.some.injEq] at hs; subst hs
+        have := mu_startCallGo s.callsLeft (receive { s with resQ := r } i)
+        unfold startCall
+        rw [receive_callsLeft, hmu]
+        simp only [muA, tailD, phi, receive_workQ, receive_resQ, receive_workers, receive_total, receive_next,
+          receive_cfg, hm, hq, List.length_cons, Bool.false_eq_true, if_false] at this ⊢
+        omega
+      · simp only [Option.some.injEq] at hs; subst hs
+        rw [mu_receive]
+        simp only [mu, muA, hq, List.length_cons]
+        omega
     | nil =>
       rw [stepP_nowait_nil hp hq] at hs
       by_cases h1 : s.next + 1 < s.total
